@@ -113,6 +113,9 @@ func c10Distinct(n int) []int {
 }
 
 func runC10(c *gen.Ctx) error {
+	// real OS processes first (they take seconds; see oscmd.go)
+	c.DoParallel("oscmd", oscmdClientScenarios(c), 4)
+
 	reps := 6
 	workers := 8
 	if c.Thorough() {
